@@ -267,11 +267,14 @@ Definition parents_ok (f : fsys) (dp : list name) (ns : list name) : bool :=
     end
   end.
 
-(* resolveRelToBase(dirPath, dirName, target) -> relative name list *)
+(* resolveRelToBase(dirPath, dirName, target) -> relative name list.
+   entry_rel is its lexical part (filepath.Rel + the ".." test). *)
+Definition entry_rel (dp : list name) (dirName : str) (target : str) : option (list name) :=
+  if is_abs target then rel_under true (0, dp) true (clean_str target)
+  else rel_under (is_abs dirName) (clean_str dirName) false (clean_str target).
+
 Definition resolve_rel (f : fsys) (dp : list name) (dirName : str) (target : str) : option (list name) :=
-  let r := if is_abs target then rel_under true (0, dp) true (clean_str target)
-           else rel_under (is_abs dirName) (clean_str dirName) false (clean_str target) in
-  match r with
+  match entry_rel dp dirName target with
   | None => None
   | Some ns => if parents_ok f dp ns then Some ns else None
   end.
@@ -383,15 +386,15 @@ Definition write_path (g : cfg) (wd : path) (title : str) : option (list comp) :
   let cl := clean_abs raw in
   if inside wd cl then Some (if fixA g then Nms cl else raw) else None.
 
-(* fixD: no symbolic link among the components of the target below the working directory *)
-Fixpoint no_symlink_below (f : fsys) (cur : path) (qs : list name) : bool :=
+(* fixD (ensureNoSymlinkBelow, after MkdirAll): every component of the target below the
+   working directory is a real directory *)
+Fixpoint all_real (f : fsys) (cur : path) (qs : list name) : bool :=
   match qs with
   | [] => true
   | c :: r =>
     match lookup f (cur ++ [c]) with
-    | Some (NSym _ _ _) => false
-    | Some NDir => no_symlink_below f (cur ++ [c]) r
-    | _ => true
+    | Some NDir => all_real f (cur ++ [c]) r
+    | _ => false
     end
   end.
 
@@ -419,16 +422,16 @@ Definition push (g : cfg) (wd cwd : path) (s : store) (o : pushop) : store * boo
       end
     | PDir _ es =>
       let dp := clean_abs raw in
-      let okd := if fixD g then
-                   match strip_prefix wd dp with
-                   | Some rel => no_symlink_below f wd rel
-                   | None => false
-                   end
-                 else true in
-      if negb okd then (s, false) else
       match mkdir_all f raw with
       | None => (s, false)
       | Some f1 =>
+        let okd := if fixD g then
+                     match strip_prefix wd dp with
+                     | Some rel => all_real f1 wd rel
+                     | None => false
+                     end
+                   else true in
+        if negb okd then (mkStore f1 (st_names s), false) else
         let '(f2, ok) := extract g cwd dp title f1 es in
         (mkStore f2 (if ok then title :: st_names s else st_names s), ok)
       end
